@@ -8,6 +8,7 @@ import (
 	"go/constant"
 	"go/token"
 	"go/types"
+	"os"
 	"sort"
 	"strings"
 
@@ -308,6 +309,9 @@ func (m *Model) RunNilErr(s *Sink, rule string) {
 				if c, isC := ret.Results[vi].(*ssa.Call); isC && boolVerdict && c.Call.StaticCallee() != nil && shortPkg(fnPkgPath(c.Call.StaticCallee())) == "parser" {
 					hasFail = true // forwards a callee's verdict
 				}
+				if bo, isBo := ret.Results[vi].(*ssa.BinOp); isBo && boolVerdict && bo.Op == token.NEQ && (isNilConst(bo.X) || isNilConst(bo.Y)) {
+					hasFail = true // a computed verdict `x != nil`
+				}
 			}
 		}
 		if hasFail {
@@ -352,8 +356,86 @@ func (m *Model) RunNilErr(s *Sink, rule string) {
 		c, _ := v.(*ssa.Call)
 		return c
 	}
+	// a computed verdict `return x != nil` where x is what a parse function has just returned (directly, or stored into
+	// a field of the node and read back in the same block): the failure is that callee's
+	nilTested := func(b *ssa.BasicBlock) *ssa.Call {
+		ret, isRet := b.Instrs[len(b.Instrs)-1].(*ssa.Return)
+		if !isRet || len(ret.Results) == 0 {
+			return nil
+		}
+		vi := verdictIndex(b.Parent())
+		if vi < 0 {
+			vi = 0
+		}
+		bo, isBo := ret.Results[vi].(*ssa.BinOp)
+		if !isBo || bo.Op != token.NEQ {
+			return nil
+		}
+		var x ssa.Value
+		switch {
+		case isNilConst(bo.Y):
+			x = bo.X
+		case isNilConst(bo.X):
+			x = bo.Y
+		default:
+			return nil
+		}
+		for i := 0; i < 3; i++ {
+			switch v := x.(type) {
+			case *ssa.MakeInterface:
+				x = v.X
+				continue
+			case *ssa.ChangeInterface:
+				x = v.X
+				continue
+			}
+			break
+		}
+		if c, isC := x.(*ssa.Call); isC {
+			return c
+		}
+		if ld, isLd := x.(*ssa.UnOp); isLd && ld.Op == token.MUL && ld.Block() == b {
+			// the last store to that address in this block, before the load
+			var last *ssa.Store
+			for _, in := range b.Instrs {
+				if in == ssa.Instruction(ld) {
+					break
+				}
+				if st, isSt := in.(*ssa.Store); isSt {
+					if st.Addr == ld.X {
+						last = st
+					} else if fa1, ok1 := st.Addr.(*ssa.FieldAddr); ok1 {
+						if fa2, ok2 := ld.X.(*ssa.FieldAddr); ok2 && fa1.X == fa2.X && fa1.Field == fa2.Field {
+							last = st
+						}
+					}
+				}
+			}
+			if last != nil {
+				v := last.Val
+				for i := 0; i < 3; i++ {
+					switch w := v.(type) {
+					case *ssa.MakeInterface:
+						v = w.X
+						continue
+					case *ssa.ChangeInterface:
+						v = w.X
+						continue
+					}
+					break
+				}
+				if c, isC := v.(*ssa.Call); isC {
+					return c
+				}
+			}
+		}
+		return nil
+	}
 	escapes := func(fn *ssa.Function, ci *consumerInfo) (bool, string) {
 		for _, b := range fn.Blocks {
+			if nc := nilTested(b); nc != nil && ci.failPoint(nc) {
+				continue
+			}
 			if !isFailRet(b) {
 				// a forwarded bool verdict: sound if the callee's own failures record an error (or one was recorded before)
 				if fc := forwarded(b); fc != nil && isBoolT(fc.Type()) {
@@ -381,9 +463,12 @@ func (m *Model) RunNilErr(s *Sink, rule string) {
 			if !good[fn] {
 				continue
 			}
-			if bad, _ := escapes(fn, ci); bad {
+			if bad, at := escapes(fn, ci); bad {
 				good[fn] = false
 				changed = true
+				if os.Getenv("TWDEBUG") != "" {
+					fmt.Fprintf(os.Stderr, "nilerr: %s not good (%s)\n", fnKey(fn), at)
+				}
 			}
 		}
 	}
